@@ -480,6 +480,9 @@ func run(c *ev.Ctx) {
 		}
 		dir, _ := eval(cs, trace)
 		c.Eval(len(typegraph.Referenced(cs.Root)) > 0)
+		if len(cs.Names) >= 3 {
+			c.Sample(fmt.Sprintf("graph-%d-types-missing-%d", len(cs.Names)-1, cs.Missing), cs.scCase().Describe())
+		}
 		if dir != "" {
 			report(c, cs, dir)
 		}
